@@ -297,6 +297,12 @@ func (e *Engine) simple(st *State, fr *Frame, ins ssa.Instruction) bool {
 		case token.MUL:
 			fr.env[x] = e.load(st, v, e.site(fr, x))
 			root := addrRoot(v)
+			if e.Cfg.LoadEvents && root != nil && root.K != KAlloc {
+				ev := &Event{Kind: "load", Instr: x, Fn: fr.fn, Depth: fr.depth, Pos: e.Pos(x), Addr: v, Results: []*Term{fr.env[x]}, Site: e.site(fr, x)}
+				if !e.deliver(st, ev) {
+					return false
+				}
+			}
 			if root != nil && root.K == KAlloc && e.isVolatile(root) {
 				ev := &Event{Kind: "load", Instr: x, Fn: fr.fn, Depth: fr.depth, Pos: e.Pos(x), Addr: v, Volatile: true, Results: []*Term{fr.env[x]}, Site: e.site(fr, x)}
 				if !e.deliver(st, ev) {
@@ -472,6 +478,10 @@ func (e *Engine) simple(st *State, fr *Frame, ins ssa.Instruction) bool {
 		site := e.site(fr, x)
 		st.shiftSite(site)
 		fr.env[x] = Range(site, e.value(st, fr, x.X))
+		ev := &Event{Kind: "range", Instr: x, Fn: fr.fn, Depth: fr.depth, Pos: e.Pos(x), Addr: e.value(st, fr, x.X), Site: site, Results: []*Term{fr.env[x]}}
+		if !e.deliver(st, ev) {
+			return false
+		}
 	case *ssa.Next:
 		it := e.value(st, fr, x.Iter)
 		site := e.site(fr, x)
